@@ -14,6 +14,16 @@ use std::collections::HashSet;
 use target_actor::{ActorId, ActorInputMessage, ExecutionKind, TargetActorOutputMessage};
 pub use target_actors::TargetActors;
 
+/// Re-exports of items of private modules for the verification harness.
+#[cfg(zinoma_verif)]
+pub mod verif_access {
+    pub use super::builder::{BuildCancellationMessage, BuildTerminationReport};
+    pub use super::target_actor::{
+        ActorId, ActorInputMessage, ExecutionKind, TargetActorOutputMessage,
+    };
+    pub use super::watcher::{TargetInvalidatedMessage, TargetWatcher};
+}
+
 pub async fn run(
     root_target_ids: Vec<TargetId>,
     watch_option: WatchOption,
